@@ -1036,7 +1036,7 @@ static const char *C08_SITE_NAMES[] = {"req_method", "req_path", "req_query", "r
                                        "res_hdr_lines", "res_chunk_lines", "res_trailer_lines", "res_before_lines", "res_after_lines", "res_interim_hdr_lines"};
 static const char *C08_EOLS[] = {"\r\n", "\n", "\r"};
 
-static void c08_rnd_streams(int site, int unit, int eol, size_t k, Bytes &rq, Bytes &rs) {
+static void c08_rnd_streams(int site, int unit, int eol, size_t k, Bytes &rq, Bytes &rs, int sfx = 0) {
     rq.clear(); rs.clear();
     const Bytes okres = "HTTP/1.1 200 OK\r\nContent-Length: 0\r\n\r\n", okreq = "GET / HTTP/1.1\r\nHost: a\r\n\r\n";
     Bytes pump;
@@ -1046,6 +1046,7 @@ static void c08_rnd_streams(int site, int unit, int eol, size_t k, Bytes &rq, By
         bool in_line = site != C08_SITE_REQ_URLENC_BODY && site != C08_SITE_REQ_MPART_DATA;
         size_t n = in_line ? std::min<size_t>(k, 16000 / u.size()) : k;
         for (size_t i = 0; i < n; i++) pump += u;
+        if (sfx) pump += "none";   // a run of units *followed by an ordinary token* (a parser may re-scan the run for every token after it)
     } else {
         Bytes u = C08_LINES[unit % C08_NLINE]; u += C08_EOLS[eol % 3];
         for (size_t i = 0; i < k; i++) pump += u;
@@ -1093,7 +1094,7 @@ static std::string c08_pattern_name(const Plan &p) {
     long pat = p.cfg.get("c08_pattern", 0);
     if (pat < C08_NPAT) return C08_PATTERNS[pat];
     long site = p.cfg.get("c08_site", 0) % C08_SITE_COUNT;
-    return strfmt("rnd.%s.u%ld%s", C08_SITE_NAMES[site], p.cfg.get("c08_unit", 0), site >= C08_SITE_INLINE_COUNT ? strfmt(".eol%ld", p.cfg.get("c08_eol", 0)).c_str() : "");
+    return strfmt("rnd.%s.u%ld%s", C08_SITE_NAMES[site], p.cfg.get("c08_unit", 0), site >= C08_SITE_INLINE_COUNT ? strfmt(".eol%ld", p.cfg.get("c08_eol", 0)).c_str() : (p.cfg.get("c08_sfx", 0) ? ".then_token" : ""));
 }
 
 static void c08_plan(Rng &rng, Plan &p, uint64_t variant) {
@@ -1105,6 +1106,7 @@ static void c08_plan(Rng &rng, Plan &p, uint64_t variant) {
         int nunit = site < C08_SITE_INLINE_COUNT ? C08_NUNIT : C08_NLINE;
         p.cfg.set("c08_pattern", (long) C08_NPAT); p.cfg.set("c08_site", site); p.cfg.set("c08_unit", (long) (v % (uint64_t) nunit)); v /= (uint64_t) nunit;
         if (site >= C08_SITE_INLINE_COUNT) { p.cfg.set("c08_eol", (long) (v % 3 == 2 ? 2 : v % 3)); v /= 3; }
+        else { p.cfg.set("c08_sfx", (long) (v % 2)); v /= 2; }
         p.cfg.set("c08_delivery", (long) (v % 3));
         p.scenario = "pump+generated";
     } else {
@@ -1126,7 +1128,7 @@ struct C08Point { size_t k; double ticks, work, ratio; double worst_call; size_t
 static C08Point c08_measure(const Plan &p, size_t k, RunResult &r) {
     std::string pat = c08_pattern_name(p);
     Plan q = p; q.conns.resize(1);
-    if (p.cfg.get("c08_pattern", 0) >= C08_NPAT) c08_rnd_streams((int) (p.cfg.get("c08_site", 0) % C08_SITE_COUNT), (int) p.cfg.get("c08_unit", 0), (int) p.cfg.get("c08_eol", 0), k, q.conns[0].stream[0], q.conns[0].stream[1]);
+    if (p.cfg.get("c08_pattern", 0) >= C08_NPAT) c08_rnd_streams((int) (p.cfg.get("c08_site", 0) % C08_SITE_COUNT), (int) p.cfg.get("c08_unit", 0), (int) p.cfg.get("c08_eol", 0), k, q.conns[0].stream[0], q.conns[0].stream[1], (int) p.cfg.get("c08_sfx", 0));
     else c08_streams(pat, k, q.conns[0].stream[0], q.conns[0].stream[1]);
     long del = p.cfg.get("c08_delivery", 0);
     Rng rng(p.seed ^ (uint64_t) k);
